@@ -49,12 +49,12 @@ P = {
                            simb=dict(MaxCodes=0, MaxAT=10, MaxRT=10, MaxNow=6))]),
     "C05": dict(family="C05", mc={Q: ("CfgsRS", dict(MaxCodes=1, MaxAT=3, MaxRT=3, MaxNow=0, MaxDev=1, Depth=4)),
                                   T: ("CfgsRefresh", dict(MaxCodes=1, MaxAT=4, MaxRT=3, MaxNow=0, MaxDev=1, Depth=5))},
-                genx={Q: ("CfgsRS", 3), T: ("CfgsRefresh", 4)},
+                genx={Q: ("CfgsRS", 3), T: ("CfgsRSB", 3)},
                 sim={Q: ("CfgsRefreshC", 500, 10), T: ("CfgsRefreshC", 8000, 16)},
                 simb=dict(MaxCodes=3, MaxAT=10, MaxRT=8, MaxNow=0, MaxDev=2),
                 more=[dict(family="C05b", mc={Q: ("CfgsRSB", dict(MaxCodes=1, MaxAT=3, MaxRT=2, MaxNow=0, MaxDev=1, Depth=5)),
                                                T: ("CfgsRSB", dict(MaxCodes=2, MaxAT=4, MaxRT=3, MaxNow=0, MaxDev=1, Depth=7))},
-                           genx={Q: ("CfgsRSB", 4), T: ("CfgsRSB", 5)},
+                           genx={Q: ("CfgsRSB", 4), T: ("CfgsRSB", 4)},
                            sim={Q: ("CfgsRSBC", 300, 8), T: ("CfgsRSBC", 4000, 12)},
                            simb=dict(MaxCodes=2, MaxAT=8, MaxRT=6, MaxNow=0, MaxDev=2)),
                       dict(family="C05c", mc={Q: ("CfgsRS", dict(MaxCodes=0, MaxAT=4, MaxRT=4, MaxNow=0, MaxDev=1, Depth=7)),
